@@ -109,9 +109,14 @@ def check_jac_analytic(F, run):
     except sym.Return:
         pass
     except sym.Unsupported as u:
-        run.broken("R17.3", b["path"], "body", F.loc(b, u.node if isinstance(u.node, dict) else None), str(u))
+        # the symbolic-loop reading is a convenience: the same obligation is decided entry by entry at a concrete shape by lm.check_coverage
+        # ('lm-analytic': entry (r, c) is exactly component c of the gradient at xs[r], parameters unperturbed), which does not depend on the loop shape
+        run.observe("R17.3-symbolic", F.loc(b, u.node if isinstance(u.node, dict) else None), "symbolic-loop reading of jac_analytic not applicable (%s); decided at the concrete shape" % str(u)[:100])
         return
     good = len(it.stores) == 1 and len(it.user_calls) == 1
+    if not good:
+        run.observe("R17.3-symbolic", F.loc(b), "jac_analytic is not a single symbolic store; decided at the concrete shape")
+        return
     if good:
         name, idx, val, node = it.stores[0]
         call = it.user_calls[0]
